@@ -473,8 +473,18 @@ def failing_inputs(case, res, text):
         node = next((n for n in case["nodes"] if n["outs"][0] == plugin), None)
         if node:
             names |= set(node["deps"])
+    _, computed = needed(case, stored, _tgt)
     for m in re.finditer(r"Plugin (\w+) terminated without fetching last", text):
         names.add(m.group(1))
+        for n in case["nodes"]:
+            if not (set(n["outs"]) & computed and len(n["deps"]) > 1):
+                continue
+            # every computed plugin with several dependencies that reads it, and the one that provides it (its own stream
+            # may be unobtainable for the same reason)
+            if m.group(1) in n["deps"] or m.group(1) in n["outs"]:
+                names |= set(n["deps"])
+    if len(targets_of(_tgt)) > 1:
+        names |= set(targets_of(_tgt))
     names = sorted(n for n in names if n in case["kinds"])
     d = tempfile.mkdtemp(prefix="c01_", dir=os.environ.get("VERIF_C01_TMP") or None)
     out = {}
@@ -701,16 +711,37 @@ def _judge(case, res, cfg, stored, tgt, where, model):
             multi_deps = {d for n in readers for d in n["deps"]} | (set(tl) if len(tl) > 1 else set())
             hit = [d for d in sorted(named) if d in multi_deps and streams.get(d) and len(streams[d]) > 1
                    and streams[d][-1][0] == streams[d][-1][1]]
-            if hit:
-                rd = next((n for n in readers if hit[0] in n["deps"] and all(streams.get(d) for d in n["deps"])), None)
-                if rd is not None:
-                    strict = any(o in case["stored"] for o in rd["outs"]) if twin else any(p in ("T", "A") for p in rd["save"])
-                    res["model_op"] = op_iter(case, rd["deps"], streams, strict)
-                elif len(tl) > 1 and all(streams.get(d) for d in tl):
-                    res["model_op"] = op_iter(case, tl, streams, False)       # the temporary MergeOnlyPlugin is EXPLICIT
-                return (f"D16-shape: {where}: the stream of {hit[0]} ends with the zero-duration chunk "
-                        f"[{streams[hit[0]][-1][0]},{streams[hit[0]][-1][1]}) and Plugin.iter of a plugin with several dependencies "
-                        f"that reads it raised RuntimeError 'terminated without fetching last {hit[0]}'")
+            if hit and model is not None:
+                # which reader failed: the one for which the C08 model of Plugin.iter, on the recorded streams, raises too
+                cands = [(n["deps"], any(o in case["stored"] for o in n["outs"]) if twin else any(p in ("T", "A") for p in n["save"]))
+                         for n in readers if hit[0] in n["deps"]]
+                if len(tl) > 1 and hit[0] in tl:
+                    cands.append((tl, False))                   # the temporary MergeOnlyPlugin is EXPLICIT
+                for deps, strict in cands:
+                    if all(streams.get(d) for d in deps):
+                        op = op_iter(case, deps, streams, strict)
+                        if model([op])[0] == "err RuntimeError":
+                            res["model_op"] = op
+                            return (f"D16-shape: {where}: the stream of {hit[0]} ends with the zero-duration chunk "
+                                    f"[{streams[hit[0]][-1][0]},{streams[hit[0]][-1][1]}) and Plugin.iter of a plugin with several "
+                                    f"dependencies that reads it raised RuntimeError 'terminated without fetching last {hit[0]}'")
+            # the named data type is itself the output of a plugin with several dependencies one of whose input streams ends
+            # with a zero-duration chunk: that plugin hands the zero-duration chunk on as its own last chunk, which its reader
+            # (a plugin with several dependencies, or the temporary merge plugin of a multi-target request) leaves unfetched;
+            # requested alone it fails with the same error, so its stream cannot be recorded - its inputs are looked at instead
+            for d in sorted(named):
+                prov = next((n for n in case["nodes"] if d in n["outs"] and set(n["outs"]) & computed and len(n["deps"]) > 1), None)
+                if d in multi_deps and streams.get(d) is None and prov is not None and all(streams.get(x) for x in prov["deps"]):
+                    z = [x for x in prov["deps"] if len(streams[x]) > 1 and streams[x][-1][0] == streams[x][-1][1]]
+                    strict = any(o in case["stored"] for o in prov["outs"]) if twin else any(p in ("T", "A") for p in prov["save"])
+                    op = op_iter(case, prov["deps"], streams, strict)
+                    if z and model is not None and model([op])[0] == "err RuntimeError":
+                        res["model_op"] = op
+                        return (f"D16-shape: {where}: the stream of {z[0]} ends with the zero-duration chunk "
+                                f"[{streams[z[0]][-1][0]},{streams[z[0]][-1][1]}) and Plugin.iter of a plugin with several dependencies "
+                                f"that reads it raised RuntimeError 'terminated without fetching last {d}' ({d} = "
+                                f"{prov['kind']}({','.join(prov['deps'])}) passes the zero-duration chunk on as its own last chunk and "
+                                f"its reader leaves it unfetched; requested alone it raises the same error)")
         if is_timeout(res) and res.get("root_exc") is None and _threaded_phase(case, res):
             both = _both_outputs_reconverge(case, res)
             if res.get("eager_ok") and _lazy_phase(case, res) and both:
@@ -1287,11 +1318,13 @@ def run_pool(cases, workers, budget_s, note=None, stall_s=1500, dead_s=500, min_
     if mon is not None:
         mon.exit()
         _tqdm.tqdm.monitor = None
+    def others():        # the engine's watchdog is a sleeping threading.Timer: it holds nothing a forked child could need
+        return [t for t in threading.enumerate() if t is not threading.main_thread() and not isinstance(t, threading.Timer)]
     t1 = time.time()
-    while threading.active_count() > 1 and time.time() - t1 < 10:
+    while others() and time.time() - t1 < 10:
         time.sleep(0.1)
-    if threading.active_count() > 1 and note:
-        note(f"threads alive at fork time: {[t.name for t in threading.enumerate()][1:]}")
+    if others() and note:
+        note("threads alive at fork time: " + str([(t.name, type(t).__name__, t.daemon) for t in others()]))
     mk = lambda: mp.get_context("fork").Pool(workers)   # noqa: E731
     base = tempfile.mkdtemp(prefix="c01_run_")       # every storage directory of this run lives below it
     os.environ["VERIF_C01_TMP"] = base
